@@ -40,6 +40,9 @@ func c16Case(c *core.Ctx) {
 	T := c.R.IntRange(10, 40)
 	run := GenRun(model, c.R, 1, 1, 1, T, 0)
 	c.Begin(run)
+	if c.R.Bool(0.03) {
+		HostileHistory(c, model, run.Sets)
+	}
 	out, err := ExecuteFor(c, run)
 	if err != nil {
 		c.Violate("prepare", model, err.Error())
